@@ -130,7 +130,7 @@ func lenClass(L int) string {
 }
 
 func runC16(c *mon.Ctx) {
-	reps := c.Pick(14, 110)
+	reps := c.Pick(14, 600)
 	k := 0
 	for rep := 0; rep < reps; rep++ {
 		for L := 0; L <= 64; L++ {
